@@ -7,13 +7,16 @@ PROP = dict(
                "called in each of STARTING, NORMAL, DEGRADED and RESIZING on an in-process server whose cluster state is forced. Query, import, export, "
                "schema-change and anti-entropy entry points must return the method-not-allowed error class (HTTP: an error status carrying the refusal) and "
                "leave schema and a probe battery of the stored data unchanged in STARTING/RESIZING, and must not be refused in NORMAL/DEGRADED; cluster "
-               "messages, coordinator changes, shard data transfer and resize abort must be served in RESIZING. The pair space is enumerated completely; "
-               "argument values are sampled.",
+               "messages, coordinator changes, shard data transfer and resize abort must be served in RESIZING. The pair space is enumerated completely, "
+               "and so is every combination of the request flags and functional options of a method: the exported bool fields of ImportOptions, QueryRequest "
+               "and ImportRoaringRequest (listed by reflection, so a new option is enumerated too), explicit shard lists, the remote parameters; over HTTP "
+               "every optional query-string argument in the handler's validation table (read by reflection) on and off, JSON and protobuf query bodies. "
+               "Other argument values are sampled.",
     level_note="Trusted: Go reflection (cluster.SetState is reached through the unexported field API.cluster), the 40-entry classification table in "
                "c23_gate_test.go / c23_http_test.go (a method or route missing from it is reported as 'unclassified' in the evidence and only fails the "
                "check if it is seen to change data or schema in STARTING/RESIZING). Single node; arguments are valid requests against a fixed fixture. "
                "The HTTP status code of a refusal is recorded, not asserted (the handler answers 500/400/404, nothing documents 405).",
-    rule="case = (state, method or route, argument variant). distinct = hash of state + rendered call. non-trivial = a gated (or unclassified) entry point "
+    rule="case = (state, method or route, flag/option combination, argument variant). distinct = hash of state + rendered call. non-trivial = a gated (or unclassified) entry point "
          "called in STARTING/RESIZING with arguments that would change the fixture's data or schema if the gate were missing (schema + probe battery "
          "compared before/after), or a resizing-only/always entry point called in RESIZING.",
     assumptions=["classification of the existing entry points follows the property statement: query/import/export/schema change/anti-entropy = gated; "
